@@ -48,7 +48,7 @@ func runC08(c *Ctx) {
 
 func c08R2(c *Ctx, r *c08Roles) {
 	const R2 = "C08.R2.persist-tag-mutations"
-	c.Expect(R2, 10)
+	c.Expect(R2, 15)
 	c08ComputeDirty(c.P, r)
 	nMut := 0
 	for _, f := range c.P.FuncsOfPkg(c08Pkg) {
@@ -86,6 +86,21 @@ func c08R2(c *Ctx, r *c08Roles) {
 	}
 	if nMut == 0 {
 		c.LostAnchor(R2, "mutations of s.tagResolver in ~/content/oci")
+	}
+	// success promises persistence, whether or not memory changed on the path
+	promises, lost := c08PersistPromises(c.P, r)
+	for _, l := range lost {
+		c.LostAnchor(R2, l)
+	}
+	for _, pr := range promises {
+		key := FnName(pr.Fn) + "|" + pr.What
+		if pr.Bad == nil {
+			c.OK(R2, key, pr.Fn.Pos(), "every nil-error return passes a successful saveIndex (or the AutoSaveIndex==false edge) from function entry")
+		} else {
+			c.Violation(R2, key, pr.Bad.Pos(), "the operation can return success at "+c.P.Pos(pr.Bad.Pos())+" without having saved index.json although AutoSaveIndex is on. "+
+				"Skipping the save because the in-memory tag map already looks right is not safe: memory can be ahead of the file (an earlier Tag whose index write failed, or a Tag made while AutoSaveIndex was off), "+
+				"so the caller is told the tag is stored while a reopened store does not have it")
+		}
 	}
 }
 
@@ -781,6 +796,10 @@ var c08Mutants = []Mutant{
 		Old:    "\t\terr := s.saveIndex()\n\t\tif err != nil {\n\t\t\treturn nil, err\n\t\t}\n",
 		New:    "\t\tif err := s.saveIndex(); err != nil && !s.AutoGC {\n\t\t\treturn nil, err\n\t\t}\n",
 		Expect: "C08.R2.persist-tag-mutations|(*~/content/oci.Store).delete|save-error-surfaced"},
+	{Name: "tag-shortcut-when-memory-matches", File: "content/oci/oci.go",
+		Old:    "\tdgst := desc.Digest.String()\n\tif reference != dgst {\n\t\t// also tag desc by its digest",
+		New:    "\tdgst := desc.Digest.String()\n\tif current, err := s.tagResolver.Resolve(ctx, reference); err == nil && content.Equal(current, desc) {\n\t\treturn nil\n\t}\n\tif reference != dgst {\n\t\t// also tag desc by its digest",
+		Expect: "C08.R2.persist-tag-mutations|(*~/content/oci.Store).tag|success-implies-index-saved"},
 	// applies once D4 is repaired
 	{Name: "gc-not-saved", File: "content/oci/oci.go",
 		Old:    "\tif s.AutoSaveIndex {\n\t\tif err := s.saveIndex(); err != nil {\n\t\t\treturn err\n\t\t}\n\t}\n\treachableNodes",
